@@ -120,8 +120,10 @@ func checkPAT(c *mon.Ctx, carrier string, pat psi.PAT, err error, p *ref.PAT, in
 		for k := range m {
 			delete(m, k)
 		}
-		m[7777] = 0x1abc
-		m[1] = 0x0001
+		if m != nil { // a table without programs may report a nil map
+			m[7777] = 0x1abc
+			m[1] = 0x0001
+		}
 		ok = checkPAT(c, carrier+"/again", pat, nil, p, input)
 	}
 	return ok
